@@ -179,8 +179,8 @@ func dnTextCase(c *mon.Ctx, k int) (*mon.Obj, string) {
 
 func init() {
 	dirFams = append(dirFams, dirFam{
-		name: "dn-text",
-		n:    dnTextSize,
-		gen:  dnTextCase,
+		name: "dn-text", rank: 1,
+		n:   dnTextSize,
+		gen: dnTextCase,
 	})
 }
